@@ -34,6 +34,29 @@ from .. import findings as _findings
 # Known findings live in /verif/known_findings.json (status "known"); nothing is added at run time.
 KNOWN = {f["id"]: f for f in _findings.known_for("C10")}
 
+# One FIXED reproducer per known finding: run in every tier and with every seed before the sampled catalogue and judged
+# exactly like the sampled cases (contract by TLC, then the well-formedness pass).  Still there -> KNOWN-FINDING line;
+# gone -> a note, no line.
+_XYZ3 = ("1\nframe 1\nCl        11.12500       -5.50000        1.01100\n"
+         "1\nframe 2\nH         21.12500      -10.50000        1.02100\n"
+         "3\nframe 3\nN         31.12500      -15.50000        1.03100\nO         32.12500      -16.00000        1.03200\n"
+         "H         33.12500      -16.50000        1.03300\n")
+_MOL2U = ("@<TRIPOS>MOLECULE\nion\n 1 0 0 0 0\nSMALL\nUSER_CHARGES\n\n@<TRIPOS>ATOM\n"
+          "      1 N1          0.1250    -0.5000     1.0010 N.4     1  UNL1       0.2500\n"
+          "@<TRIPOS>UNITY_ATOM_ATTR\n1 1\ncharge 1\n@<TRIPOS>BOND\n")
+_XYZ1 = "2\nfixed reproducer\nH          0.00000        0.00000        0.12345\nC          1.00000        2.00000        3.98765\n"
+FIXED = (
+    {"id": "C10-last-numeric-token-cut", "fmt": "xyz", "text": _XYZ1, "recipe": [["cutbyte", len(_XYZ1) - 4]]},   # '... 3.98'
+    {"id": "C10-optional-block-cut", "fmt": "mol2", "text": _MOL2U, "recipe": [["cut", 8]]},                    # before the UNITY tag
+    {"id": "C10-edits-compose-wellformed-text", "fmt": "xyz", "text": _XYZ3, "recipe": [["del", 2], ["del", 4], ["del", 3]]},
+)
+
+
+def fixed_sources():
+    return [{"sid": "fixed:" + f["id"], "kind": "fixed", "fmt": f["fmt"], "text": f["text"], "desc": {"known": f["id"]},
+             "classes": ("Molecule",), "recipes": [f["recipe"]], "known": f["id"]} for f in FIXED]
+
+
 INV = ("ErrorOrComplete", "GoodAccepted", "Terminates")
 ACT_MAIN = ("M2Eof", "M2Skip", "M2Molecule", "M2HdrLine", "M2HdrCounts", "M2HdrStatus", "M2HdrPutBack", "M2AtomTag",
             "M2AtomLine", "M2BondTag", "M2BondLine", "M2OtherTag", "M2Unexpected", "XEof", "XCount", "XComment",
@@ -390,6 +413,8 @@ def unit_plan(src, cls, tier, rnd):
     prim = R.PRIMARY[cls]
     n = len(dm.lines)
     out = []
+    if src["kind"] == "fixed":
+        return dm, [(r, prim) for r in src["recipes"]]
     if src["kind"] == "tlc":
         _, recs = recipes_for(src, tier, rnd)
         return dm, [(r, prim) for r in recs]
@@ -441,7 +466,7 @@ def run(tier, seed, replay_path):
     t_model = time.time() - t0
     rnd = random.Random(seed * 104729 + 3)
     sources, skipped = [], []
-    for s in bundled() + molli_written() + seeded(tier, seed) + mc_family(edges):
+    for s in fixed_sources() + bundled() + molli_written() + seeded(tier, seed) + mc_family(edges):
         if "skip" in s:
             skipped.append(s["skip"])
         else:
@@ -533,6 +558,7 @@ def run(tier, seed, replay_path):
     texts, nviol, nknown, per_kind, per_class, per_entry = set(), 0, 0, Counter(), Counter(), Counter()
     reported, predicted, reproduced, unpredicted = set(), 0, 0, 0
     samples, examples, kexamples, notrep, unpred = [], [], [], [], []
+    fixed_seen = {f["id"]: None for f in FIXED}
     for uid in goods:
         u, dm, lst = plan[uid]
         g = results[(uid, "good")]
@@ -563,9 +589,13 @@ def run(tier, seed, replay_path):
                 samples.append({"source": uid, "via": via, "recipe": rec, "outcome": {"out": o["out"], "mols": o["mols"][:2]},
                                 "verdict": v})
             if v == "ACCEPT":
+                if u["kind"] == "fixed":
+                    fixed_seen[u["known"]] = False
                 continue
             dc = damage_class(dm, rec, ops)
             kid = known_id(u, dm, rec, ops, g, o, (uid, key) in wellformed)
+            if u["kind"] == "fixed":
+                fixed_seen[u["known"]] = kid == u["known"]
             if kid:
                 nknown += 1
                 per_class["KNOWN " + u["fmt"] + " " + dc] += 1
@@ -590,6 +620,12 @@ def run(tier, seed, replay_path):
                        "undamaged": [{k: m[k] for k in ("na", "nc", "nb", "dig")} for m in g["mols"]], "class": dc, "why": why}
             payload["damaged_hex" if isinstance(data, bytes) else "damaged_text"] = data.hex() if isinstance(data, bytes) else data
             rep.violation("damaged-text", payload, what=f"{uid} via {via} [{dc}] {rec}: {why}")
+    for kid, seen in fixed_seen.items():
+        if seen is None:
+            raise tlc.MachineryError(f"the fixed reproducer of known finding {kid} was not judged (its undamaged text is not read?)")
+        if not seen:
+            rep.note(f"known finding {kid} no longer reproduces")
+    ev.set(known_reproducers={k: ("reproduces" if v else "no longer reproduces") for k, v in fixed_seen.items()})
     if nskipped:
         rep.note(f"{nskipped} cases were NOT run: the reader timed out on {R.MAX_TIMEOUTS}+ inputs and the run was cut short")
         if not rep.viol:
